@@ -10,6 +10,7 @@
 -/
 import Tranp.Lemmas.AstPath
 import Tranp.Generated.TagAlphabet
+import Tranp.Generated.GrammarChildren
 
 namespace Tranp.C10
 open Tranp Tranp.AstPath
@@ -496,6 +497,147 @@ example : WfTags grammarSample ∧ grammarSample.name = Generated.TagAlphabet.st
     namesInListB Generated.TagAlphabet.belowTags grammarSample.children = true ∧
     (expandPaths (worldOf grammarSample ["list".toList, "list_comp".toList]) "file_input.assign.list".toList).toOption
       = some ["file_input.assign.list.list".toList, "file_input.assign.list.list_comp".toList] := by
+  decide +kernel
+
+/-! ## `ASTFinder.find` / `exists`: a search below any base path reports full paths of the whole tree
+
+`findS` is `ASTFinder.find(root, via, tester, depth)`: `pluck` at `via`, then `full_pathfy(entry, via, depth)` — the
+enumeration continues the base path `via` itself (index of its last element included) — filtered by `tester(entry, path)`. -/
+
+/-- `find` from any enumerated base path: the pre-order enumeration of the subtree there, cut `depth` levels below it
+    (never, when `depth < 0`; at the base entry itself when `depth = 0`), with the keys the whole tree gives those entries,
+    filtered — every tester, every depth. -/
+theorem find_spec (t : Entry) (h : WfTags t) (q : Path) (x : Entry) (hq : (q, x) ∈ pathfy t [⟨t.name, none⟩])
+    (tester : Entry → Str → Bool) (d : Int) :
+    findS t (encodePath q) tester d
+      = .ok (((under d x q).map (fun pe => (encodePath pe.1, pe.2))).filter (fun kv => tester kv.2 kv.1)) :=
+  findS_spec t h q x hq tester d
+
+/-- Every `(path, entry)` pair `find` reports is a pair of `full_pathfy(root)`, looking the path up returns that very
+    entry, and the tester accepted it. -/
+theorem find_sound (t : Entry) (h : WfTags t) (q : Path) (x : Entry) (hq : (q, x) ∈ pathfy t [⟨t.name, none⟩])
+    (tester : Entry → Str → Bool) (d : Int) (l : List (Str × Entry)) (hl : findS t (encodePath q) tester d = .ok l) :
+    ∀ s e, (s, e) ∈ l → (s, e) ∈ fullPathfy t ∧ pluckS t s = .ok e ∧ tester e s = true :=
+  findS_sound t h q x hq tester d l hl
+
+/-- With the default unbounded depth nothing at or below the base path is left out: the result is the whole enumeration
+    of the subtree (an order-preserving part of the tree's own, `subtree_enumeration`), filtered. -/
+theorem find_complete (t : Entry) (h : WfTags t) (q : Path) (x : Entry) (hq : (q, x) ∈ pathfy t [⟨t.name, none⟩])
+    (tester : Entry → Str → Bool) (d : Int) (hd : d < 0) :
+    findS t (encodePath q) tester d
+      = .ok (((pathfy x q).map (fun pe => (encodePath pe.1, pe.2))).filter (fun kv => tester kv.2 kv.1)) := by
+  rw [← under_neg d hd]; exact findS_spec t h q x hq tester d
+
+/-- `ASTFinder.find` and `EntryCache.group_by` agree: for every non-zero depth the unfiltered search below `via` is the
+    dict `group_by(via, depth)` of the cache `Nodes.__init__` builds (same keys, same order, same entries). -/
+theorem find_agrees_group_by (t : Entry) (h : WfTags t) (q : Path) (x : Entry) (hq : (q, x) ∈ pathfy t [⟨t.name, none⟩])
+    (d : Int) (hd : d ≠ 0) :
+    findS t (encodePath q) (fun _ _ => true) d = (mkCache t).groupByAll (encodePath q) d := by
+  rw [groupBy_depth t h q x hq d hd, find_spec t h q x hq]
+  simp
+
+/-- `ASTFinder.exists` answers `True` on every path of `full_pathfy(root)`. -/
+theorem finder_exists (t : Entry) (h : WfTags t) (s : Str) (e : Entry) (hm : (s, e) ∈ fullPathfy t) :
+    finderExists t s = .ok true :=
+  finderExists_of_mem t h s e hm
+
+/-- a base path whose last element is indexed (`r.a[2]`): the reported keys keep the index; depth 1 stops at the children;
+    a path outside the tree is `Errors.NodeNotFound` for `find` and `False` for `exists` -/
+example : (findS sample "r.a[2]".toList (fun _ _ => true) (-1)).toOption = some
+      [("r.a[2]".toList, .tree ['a'] [.token ['b'] ['x'], .empty, .empty]), ("r.a[2].b".toList, .token ['b'] ['x']),
+       ("r.a[2].__empty__[1]".toList, .empty), ("r.a[2].__empty__[2]".toList, .empty)] ∧
+    ((findS sample ['r'] (fun e _ => !e.hasChild) 1).toOption.map (·.map (·.1)))
+      = some ["r.a[0]".toList, "r.__empty__".toList] ∧
+    ((findS sample ['r'] (fun _ _ => true) 0).toOption.map (·.length)) = some 1 ∧
+    (findS sample "r.b".toList (fun _ _ => true) (-1)).toOption = none ∧
+    (finderExists sample "r.b".toList).toOption = some false ∧ (finderExists sample "r.a[2].b".toList).toOption = some true := by
+  decide +kernel
+
+/-! ## three levels suffice on the real grammar — the depth hypothesis of `expand_spec_full` discharged
+
+`Nodes.expand` looks three levels below `via` (`group_by(via, depth=3)`, query.py). `uheight canRes e` counts the unresolvable
+tree entries nested directly inside one another from `e` downwards (with a further entry below the last).
+`Generated.GrammarChildren` (regenerated on every run from lark's compiled rules and `symbol_mapping()`) lists which names
+can sit directly below which tree tag, and the resolvable tags; `conformsB` says a tree respects that table (checked by
+the harness on every parse tree it sees). -/
+
+/-- Three levels are all levels whenever no child of the entry starts three nested unresolvable levels — any tree, any
+    resolvable-tag set. -/
+theorem expand_depth_bounded (canRes : Str → Bool) (x : Entry) (q : Path)
+    (h : ∀ c ∈ x.children, uheight canRes c ≤ 2) :
+    expandOf canRes 3 x q = expandFullOf canRes x q :=
+  expandOf_three_eq_full canRes x q h
+
+example : (∀ c ∈ sample.children, uheight sampleWorld.table.canResolve c ≤ 2) ∧
+    ¬ (∀ c ∈ depthWitness.children, uheight (worldOf depthWitness [['d']]).table.canResolve c ≤ 2) := by
+  decide +kernel
+
+/-- A tree that conforms to a child relation without three directly nested unresolvable tags (above a further entry) has at
+    most two nested unresolvable levels at every entry — any relation, any resolvable-tag set. -/
+theorem conforming_depth (rel : Str → Str → Bool) (canRes : Str → Bool) (hcf : ChainFree rel canRes)
+    (e : Entry) (he : conformsB rel e = true) : uheight canRes e ≤ 2 :=
+  uheight_le_two rel canRes hcf e he
+
+/-- Decided over the generated tables: among the tree tags of `data/grammar.lark` as lark builds them, no three tags without
+    a node class in `symbol_mapping()` can be nested directly inside one another above a further entry (today the longest such
+    nestings have two: `class_def_raw > template_params`, `function_def_raw > parameters`, …). -/
+theorem grammar_chain_free :
+    chainFreeB Generated.GrammarChildren.kids (fun s => Generated.GrammarChildren.resolvable.contains s) = true := by
+  decide +kernel
+
+/-- `expand_spec_full` for every parse tree of the shipped grammar under the shipped symbol mapping, with neither the
+    string-level nor the depth hypothesis left: `Nodes.expand(via)` (paths before resolution) is exactly the nearest
+    resolvable descendants plus the terminals without a resolvable ancestor below `via`, at every entry path. -/
+theorem expand_spec_full_grammar (t : Entry) (h : WfTags t) (hroot : t.name = Generated.TagAlphabet.startTag)
+    (halpha : namesInListB Generated.TagAlphabet.belowTags t.children = true)
+    (hconf : conformsB (relOf Generated.GrammarChildren.kids) t = true)
+    (w : World) (hw : w.cache = mkCache t)
+    (hres : ∀ s ∈ Generated.GrammarChildren.resolvable, w.table.canResolve s = true)
+    (q : Path) (x : Entry) (hq : (q, x) ∈ pathfy t [⟨t.name, none⟩]) :
+    expandPaths w (encodePath q) = .ok ((expandFullOf w.table.canResolve x q).map encodePath) := by
+  have hcf : ChainFree (relOf Generated.GrammarChildren.kids) w.table.canResolve :=
+    ChainFree.mono _ _ _ (chainFree_of_chainFreeB _ _ grammar_chain_free)
+      (fun s hs => hres s (by simpa using hs))
+  have hx : conformsB (relOf Generated.GrammarChildren.kids) x = true := conforms_of_mem _ t _ hconf q x hq
+  have hdepth : expandOf w.table.canResolve 3 x q = expandFullOf w.table.canResolve x q := by
+    apply expandOf_three_eq_full
+    intro c hc
+    apply uheight_le_two _ _ hcf
+    cases x with
+    | tree tg cs =>
+      simp only [conformsB] at hx
+      exact ((conformsListB_iff _ tg cs).1 hx c hc).2
+    | token tg v => simp [Entry.children] at hc
+    | empty => simp [Entry.children] at hc
+  rw [← hdepth]
+  exact expand_spec_grammar t h hroot halpha w hw q x hq
+
+/-- the parse tree of `class A[T](B, metaclass=M): ...` as tranp's parser builds it -/
+def classSample : Entry :=
+  .tree "file_input".toList [.tree "class_def".toList [.empty, .tree "class_def_raw".toList [
+    .tree "name".toList [.token "NAME".toList ['A']],
+    .tree "template_params".toList [.tree "template_assign".toList
+      [.tree "assign_namelist".toList [.tree "var".toList [.tree "name".toList [.token "NAME".toList ['T']]]], .empty]],
+    .tree "inherit_arguments".toList [.tree "typed_argvalue".toList [.tree "typed_var".toList [.tree "name".toList [.token "NAME".toList ['B']]]]],
+    .tree "metaclass_argvalue".toList [.tree "typed_var".toList [.tree "name".toList [.token "NAME".toList ['M']]]],
+    .tree "block".toList [.tree "elipsis".toList []]]]]
+
+/-- the shipped resolvable tags as a world over a tree -/
+def grammarWorld (t : Entry) : World := worldOf t Generated.GrammarChildren.resolvable
+
+/-- the hypotheses hold of a real parse tree, and its third level is needed: `class_def > class_def_raw > template_params >
+    template_assign` — two levels would miss `template_assign` and the `typed_argvalue` / `typed_var` of the heritage. -/
+example : WfTags classSample ∧ classSample.name = Generated.TagAlphabet.startTag ∧
+    namesInListB Generated.TagAlphabet.belowTags classSample.children = true ∧
+    conformsB (relOf Generated.GrammarChildren.kids) classSample = true ∧
+    (∀ s ∈ Generated.GrammarChildren.resolvable, (grammarWorld classSample).table.canResolve s = true) ∧
+    (expandPaths (grammarWorld classSample) "file_input.class_def".toList).toOption
+      = some ["file_input.class_def.__empty__".toList, "file_input.class_def.class_def_raw.name".toList,
+          "file_input.class_def.class_def_raw.template_params.template_assign".toList,
+          "file_input.class_def.class_def_raw.inherit_arguments.typed_argvalue".toList,
+          "file_input.class_def.class_def_raw.metaclass_argvalue.typed_var".toList,
+          "file_input.class_def.class_def_raw.block".toList] ∧
+    (expandOf (grammarWorld classSample).table.canResolve 2 (classSample.children.head!) [⟨"file_input".toList, none⟩, ⟨"class_def".toList, none⟩]).length = 3 := by
   decide +kernel
 
 /-- `EntryPath.valid` of an encoded path: it has at least one element. -/
